@@ -12,7 +12,7 @@ use burn::tensor::{Tensor, TensorData};
 use mini_mcmc::io::arrow::save_arrow;
 use mini_mcmc::io::csv::{save_csv, save_csv_tensor};
 use mini_mcmc::io::parquet::{save_parquet, save_parquet_tensor};
-use ndarray::Array3;
+use ndarray::{s, Array3, Axis, ShapeBuilder};
 use parquet::arrow::arrow_reader::ParquetRecordBatchReaderBuilder;
 use std::fs::File;
 
@@ -72,6 +72,23 @@ fn shape(rng: &mut Sm) -> (usize, usize, usize) {
         }
     }
     s
+}
+
+/// the same logical array in a different memory layout: 0 standard (C order), 1 Fortran order, 2 permuted axes of a
+/// `[obs, chain, dim]` buffer, 3 every second row of a larger buffer (strided), 4 inverted observation axis (negative stride)
+fn relayout<T: Clone + Default>(a: &Array3<T>, layout: u64) -> Array3<T> {
+    let (c, n, k) = a.dim();
+    match layout {
+        1 => Array3::from_shape_fn((c, n, k).f(), |(i, j, l)| a[[i, j, l]].clone()),
+        2 => Array3::from_shape_fn((n, c, k), |(j, i, l)| a[[i, j, l]].clone()).permuted_axes([1, 0, 2]),
+        3 => Array3::from_shape_fn((c, 2 * n, k), |(i, j, l)| if j % 2 == 0 { a[[i, j / 2, l]].clone() } else { T::default() }).slice_move(s![.., ..;2, ..]),
+        4 => {
+            let mut b = Array3::from_shape_fn((c, n, k), |(i, j, l)| a[[i, n - 1 - j, l]].clone());
+            b.invert_axis(Axis(1));
+            b
+        }
+        _ => a.clone(),
+    }
 }
 
 /// read a CSV file back: header line + rows `chain observation values…` (values re-parsed with `parse`)
@@ -168,6 +185,47 @@ fn bad_path(out: &mut Out, rng: &mut Sm) {
             Err(m) => out.fail(&id, &format!("C17:bad-path-panic:{name}"), "unwritable path caused a panic", 1, m),
         }
     }
+    // destinations that can be opened but not written: a device that is always full (every write fails with ENOSPC,
+    // also the one deferred to the final flush), for outputs below and above the writers' buffer sizes; and a directory
+    if std::path::Path::new("/dev/full").exists() {
+        for (c, n, k) in [(1usize, 1usize, 1usize), (2, 3, 2), (4, 40, 8), (6, 400, 8)] {
+            let a3 = Array3::<f64>::from_shape_fn((c, n, k), |(i, j, l)| (i * 1000 + j * 10 + l) as f64 + 0.25);
+            let v: Vec<f32> = a3.iter().map(|x| *x as f32).collect();
+            let t = Tensor::<NdArray<f32>, 3>::from_data(TensorData::new(v, [c, n, k]), &Default::default());
+            let p = "/dev/full";
+            let results: Vec<(&str, Result<bool, String>)> = vec![
+                ("save_csv", guarded(|| save_csv(&a3, p).is_err())),
+                ("save_csv_tensor", guarded(|| save_csv_tensor(t.clone(), p).is_err())),
+                ("save_arrow", guarded(|| save_arrow(&a3, p).is_err())),
+                ("save_parquet", guarded(|| save_parquet(&a3, p).is_err())),
+                ("save_parquet_tensor", guarded(|| save_parquet_tensor::<NdArray<f32>, _, f32>(&t, p).is_err())),
+            ];
+            for (name, r) in results {
+                out.count("predicate_evaluations");
+                match r {
+                    Ok(true) => out.count("full_device_err"),
+                    Ok(false) => out.fail(&id, &format!("C17:full-device-ok:{name}"), "a destination on which every write fails (/dev/full) reported success", (c * n * k) as u64, format!("{name} shape {c}x{n}x{k}")),
+                    Err(m) => out.fail(&id, &format!("C17:full-device-panic:{name}"), "a destination on which every write fails caused a panic", (c * n * k) as u64, m),
+                }
+            }
+        }
+    } else {
+        out.count("dev_full_not_available");
+    }
+    let dirp = "/verif/work/C17";
+    let results: Vec<(&str, Result<bool, String>)> = vec![
+        ("save_csv", guarded(|| save_csv(&a3, dirp).is_err())),
+        ("save_arrow", guarded(|| save_arrow(&a3, dirp).is_err())),
+        ("save_parquet", guarded(|| save_parquet(&a3, dirp).is_err())),
+    ];
+    for (name, r) in results {
+        out.count("predicate_evaluations");
+        match r {
+            Ok(true) => out.count("directory_path_err"),
+            Ok(false) => out.fail(&id, &format!("C17:dir-path-ok:{name}"), "a directory given as destination reported success", 1, name.into()),
+            Err(m) => out.fail(&id, &format!("C17:dir-path-panic:{name}"), "a directory given as destination caused a panic", 1, m),
+        }
+    }
 }
 
 pub fn run(out: &mut Out) {
@@ -178,6 +236,7 @@ pub fn run(out: &mut Out) {
         let id = out.fresh_id("io");
         let (c, nobs, k) = shape(&mut rng);
         let p_special = *rng.pick(&[0.0, 0.05, 0.3]);
+        let layout = if rng.coin(0.4) { 0 } else { rng.range(1, 4) };
         let v64 = gen64(&mut rng, c * nobs * k, p_special);
         let v32 = gen32(&mut rng, c * nobs * k, p_special);
         let vi: Vec<i32> = (0..c * nobs * k).map(|_| if rng.coin(0.1) { *rng.pick(&[i32::MIN, i32::MAX, 0, -1]) } else { rng.next() as i32 >> rng.below(31) }).collect();
@@ -188,10 +247,11 @@ pub fn run(out: &mut Out) {
         let size = (c * nobs * k) as u64;
         guard_case(out, &id.clone(), "C17:panic", size, |out| {
             let p = tmp(out, &format!("f{i}"));
-            let a64 = Array3::from_shape_vec((c, nobs, k), v64.clone()).unwrap();
-            let a32 = Array3::from_shape_vec((c, nobs, k), v32.clone()).unwrap();
-            let ai = Array3::from_shape_vec((c, nobs, k), vi.clone()).unwrap();
-            let au = Array3::from_shape_vec((c, nobs, k), vu.clone()).unwrap();
+            let a64 = relayout(&Array3::from_shape_vec((c, nobs, k), v64.clone()).unwrap(), layout);
+            let a32 = relayout(&Array3::from_shape_vec((c, nobs, k), v32.clone()).unwrap(), layout);
+            let ai = relayout(&Array3::from_shape_vec((c, nobs, k), vi.clone()).unwrap(), layout);
+            let au = relayout(&Array3::from_shape_vec((c, nobs, k), vu.clone()).unwrap(), layout);
+            out.count(&format!("array_layout_{}{}", layout, if a64.is_standard_layout() { "_standard" } else { "_nonstandard" }));
             let t64: Vec<String> = v64.iter().map(|x| h64(*x)).collect();
             let t32: Vec<String> = v32.iter().map(|x| h32(*x)).collect();
             let ti: Vec<String> = vi.iter().map(|x| x.to_string()).collect();
